@@ -11,7 +11,7 @@ def replay_cases(c, exe, cases_file, ncases):
     if p.returncode != 0: raise vlib.ToolError("paths replay crashed: " + p.stderr[-2000:])
     s = json.loads(p.stdout.strip().splitlines()[-1])
     if s["executed"] != 3 * ncases: raise vlib.ToolError("replayed %d of %d" % (s["executed"], 3 * ncases))
-    c.add("evaluations", s["executed"]); c.add("traces_validated_against_impl", ncases)
+    c.add("evaluations", s["executed"] + s.get("swept", 0)); c.add("class_sweep_strings", s.get("swept", 0)); c.add("traces_validated_against_impl", ncases)
     bad = vlib.ndjson_read(mf)
     kf_bad = [b for b in bad if b["input"].get("k") == "ident" and [x[0] for x in b["input"]["s"][:4]] == ["r", "#", "r", "#"]]
     other = [b for b in bad if b not in kf_bad]
@@ -66,6 +66,6 @@ def run(tier, replay=None):
     vlib.run([exe, "record", str(vlib.seed()), str(4000 if thorough else 1000), tr], check=True)
     validate(c, tr)
     c.cov["exhaustive"] = True
-    c.cov["rule"] = "every string of length <= %d over 8 character classes (letter, r, _, digit, #, :, other ASCII, non-ASCII), each concretised with 3 different representative characters; every list of <=3 segments over 10 representative segments x every replacement table of <=%d entries; plus random unicode strings validated by TLC" % (maxlen, 2 if thorough else 1)
+    c.cov["rule"] = "every string of length <= %d over 8 character classes (letter, r, _, digit, #, :, other ASCII, non-ASCII), each concretised with 3 different representative characters, the strings of length <= 3 additionally with EVERY member of the class at each position (all ASCII characters, a spread of non-ASCII letters, numerics, marks and format characters); every list of <=3 segments over 10 representative segments x every replacement table of <=%d entries; plus random unicode strings validated by TLC" % (maxlen, 2 if thorough else 1)
     c.assumptions += ["acceptance depends on a character only through its class (letter / r / _ / digit / # / : / other ASCII / non-ASCII)", "the harness's classify() is trusted"]
     return c.finish()
